@@ -19,7 +19,12 @@
      macro N arity <template>      macro number N (macro env = the global frame); template tokens:
                                    ( ) vI = pattern variable I, sN = identifier N, integer = literal
      analyze FUEL <form>           form tokens: ( ) sN integer      -> printed rterm or ERR ...
-     analyze_swap FUEL A B <form>  same after swapping the bare symbols A and B in the form *)
+     analyze_swap FUEL A B <form>  same after swapping the bare symbols A and B in the form
+
+   Renamer scripts (inner correspondence with the real make-renamer, harness/c07_renamer.scm):
+     rn_reset | rn_sym J S | rn_new R K | rn_app J R I | rn_clo J K I
+     rn_dump                       -> (class ...) (shape ...) as printed by c07_renamer.scm
+   One global allocation counter; a renamer = its memo list + its macro environment K. *)
 open Model
 open Common
 
@@ -110,6 +115,31 @@ let do_analyze fuel form =
   | Err (BadSyntax n) -> "ERR syntax " ^ string_of_int (int_of_n n)
   | Err Escaped -> "ERR escaped"
 
+(* ---- renamer part ---- *)
+let rn_ids : (int, sexp) Hashtbl.t = Hashtbl.create 64
+let rn_rens : (int, int * (sexp * sexp) list) Hashtbl.t = Hashtbl.create 16
+let rn_next = ref 1
+let rn_count = ref 0
+let rn_env k : frame list = [Frame ([], [(Sym (n_of_int (9000 + k)), { cid = n_of_int k; cval = VOther })])]
+let rn_env_index (e : frame list) = match e with
+  | [Frame (_, [(_, c)])] -> int_of_n c.cid
+  | _ -> -1
+let rn_set j x = Hashtbl.replace rn_ids j x; if j + 1 > !rn_count then rn_count := j + 1
+let rn_eq a b = match a, b with
+  | Sym s, Sym t -> s = t
+  | Clo (i, _, _, _), Clo (j, _, _, _) -> i = j
+  | _ -> false
+let rn_first pred = let rec go i = if i >= !rn_count then "#f" else if pred i then string_of_int i else go (i + 1) in go 0
+let rn_dump () =
+  let id j = Hashtbl.find rn_ids j in
+  let js = List.init !rn_count (fun j -> j) in
+  let classes = List.map (fun j -> rn_first (fun i -> rn_eq (id i) (id j))) js in
+  let shapes = List.map (fun j -> match id j with
+      | Sym _ -> "s"
+      | Clo (_, e, _, x) -> "(c " ^ string_of_int (rn_env_index e) ^ " " ^ rn_first (fun i -> rn_eq (id i) x) ^ ")"
+      | _ -> "?") js in
+  "(" ^ String.concat " " classes ^ ") (" ^ String.concat " " shapes ^ ")"
+
 let handle fields =
   let fields = List.filter (fun s -> s <> "") fields in
   let i = int_of_string in
@@ -151,6 +181,17 @@ let handle fields =
       let (x, _) = parse_form toks in do_analyze (i fuel) x
   | "analyze_swap" :: fuel :: a :: b :: toks ->
       let (x, _) = parse_form toks in do_analyze (i fuel) (swapU (n_of_int (i a)) (n_of_int (i b)) x)
+  | ["rn_reset"] -> Hashtbl.reset rn_ids; Hashtbl.reset rn_rens; rn_next := 1; rn_count := 0; "ok"
+  | ["rn_sym"; j; s] -> rn_set (i j) (Sym (n_of_int (i s))); "ok"
+  | ["rn_new"; r; k] -> Hashtbl.replace rn_rens (i r) (i k, []); "ok"
+  | ["rn_app"; j; r; x] ->
+      let (k, memo) = Hashtbl.find rn_rens (i r) in
+      let ((next', memo'), c) = rename (rn_env k) (n_of_int !rn_next, memo) (Hashtbl.find rn_ids (i x)) in
+      rn_next := int_of_n next'; Hashtbl.replace rn_rens (i r) (k, memo'); rn_set (i j) c; "ok"
+  | ["rn_clo"; j; k; x] ->
+      let c = Clo (n_of_int !rn_next, rn_env (i k), [], Hashtbl.find rn_ids (i x)) in
+      incr rn_next; rn_set (i j) c; "ok"
+  | ["rn_dump"] -> rn_dump ()
   | f -> "ERR unknown request " ^ String.concat " " f
 
 let () = serve handle
